@@ -60,6 +60,9 @@ def from_emission(j):
         out.append({"fn": "winterp", "mode": "grid", "x": X, "y": Y, "q": q, "method": "linear"})
         out.append({"fn": "winterp", "mode": "grid", "x": X, "y": Y, "q": q, "qcontainer": "list", "method": "linear", "explicit_method": True})
         out.append({"fn": "winterp", "mode": "grid", "x": X, "y": Y, "q": q, "method": "linear", "also_n": 2 + len(q) % 5})
+        if len(q) >= 3:         # same range, other end points: reversed, rotated (refused)
+            out.append({"fn": "winterp", "mode": "grid", "x": X, "y": Y, "q": q[::-1], "method": "linear"})
+            out.append({"fn": "winterp", "mode": "grid", "x": X, "y": Y, "q": q[1:] + q[:1] if len(q) % 2 else q[-1:] + q[:-1], "method": "linear"})
         if len(X) >= 4:
             out.append({"fn": "winterp", "mode": "grid", "x": X, "y": Y, "q": q, "method": "cubic"})
             out.append({"fn": "winterp", "mode": "grid", "x": X, "y": Y, "q": q, "method": "constant"})
